@@ -430,7 +430,20 @@ func (in *Interp) makeSlice(i *ssa.MakeSlice, ln, cp *smt.Term) Value {
 			_ = name
 			return &SliceV{SB: &SymBytes{Buf: &SymBuf{Arr: arr}, Off: smt.BV(0, 64), Len: ln, Cap: cp}}
 		}
-		in.end("unmodelled", "make slice with symbolic size at %s", in.where())
+		if ln.Const {
+			// concrete length, symbolic capacity (a pre-allocation hint): the runtime panics unless
+			// len <= cap <= max allocation; otherwise the capacity only matters for aliasing of later appends
+			// (the slice is created with capacity = length: every append copies)
+			lo := smt.BV(ln.U, 64)
+			hi := smt.BV(1<<40, 64) // well above anything the process could allocate for multi-byte elements
+			if in.Branch(smt.Or(smt.BVSlt(cp, lo), smt.BVSlt(hi, cp))) {
+				in.goPanic("makeslice: cap out of range")
+			}
+			in.X.noteAssumption("make([]T, n, cap) with a symbolic cap: panics when cap < n or cap > 2^40 elements; otherwise behaves as capacity n (appends copy)")
+			cp = ln
+		} else {
+			in.end("unmodelled", "make slice with symbolic size at %s", in.where())
+		}
 	}
 	n, c := int(ln.SInt()), int(cp.SInt())
 	if n < 0 || c < n {
